@@ -37,4 +37,8 @@ theorem C03_fanout_arithmetic_as_modelled : Bxh.Gen.proofFanout =
      "if i == groupNum-1", "range txs[i*groupLen:]", "if !ok", "append groupInvalidTx i*groupLen + j",
      "range txs[i*groupLen : (i+1)*groupLen]", "if !ok", "append groupInvalidTx i*groupLen + j", "range groupInvalidTx"] := by decide
 
+/-- the group count of proof type "parallel" (the constant `maxGroup`, extracted on every run; the model driver fans out over it) is
+positive: the theorems above apply to it -/
+theorem C03_parallel_group_count_positive : 0 < Bxh.Gen.proofMaxGroup := by decide
+
 end Bxh.Props.C03
